@@ -16,7 +16,38 @@ const (
 	FamUnicode = "unicode"
 	FamBytes   = "bytes"
 	FamBigInt  = "boundary-int"
+	FamDeep    = "deep-nesting"
 )
+
+// deepString builds a string (<= 256 characters) that nests one construct as deeply as it fits:
+// filters inside filter operands, parentheses, logical chains, recursive descents, unions.
+func (g *G) deepString() string {
+	n := 2 + g.intn("depth", 30)
+	rep := func(s string, k int) string { return strings.Repeat(s, k) }
+	var s string
+	switch g.intn("deepkind", 8) {
+	case 0:
+		s = "$" + rep("[?(@.a", n) + rep(")]", n)
+	case 1:
+		s = "$" + rep("[?(@.a[?(@.b == 1)]", n/2+1) + rep(")]", n/2+1)
+	case 2:
+		s = "$[?(" + rep("(", n) + "@.a == 1" + rep(")", n) + ")]"
+	case 3:
+		s = "$[?(@.a" + rep(" && @.a", n) + ")]"
+	case 4:
+		s = "$[?(@.a == 1" + rep(" || @.b == 2 && @.c", n/2) + ")]"
+	case 5:
+		s = "$" + rep("..a", n) + rep("[*]", n/2)
+	case 6:
+		s = "$[0" + rep(",1:2", n) + "]"
+	default:
+		s = "$" + rep("[?($.a", n) + rep(")]", n-1) // unbalanced on purpose
+	}
+	if g.chance("deepmut", 30) {
+		s = g.mutate(s, 1)
+	}
+	return s
+}
 
 var unicodePool = []rune{'a', 'é', 'ß', '中', '😀', 0xFFFD, 0xFFFF, 0x10000, 0x10FFFF, 0x7F, 0x80, 0x00, 0x1F, ' ', '\t', '\n', '\\', '\'', '"', '$', '@', '.', '[', ']', '(', ')', '*', '?', '/'}
 
@@ -76,6 +107,8 @@ func (g *G) mutate(s string, n int) string {
 func (g *G) MutString(corpus []string) (string, string) {
 	var s, fam string
 	switch k := g.intn("family", 100); {
+	case k < 4:
+		s, fam = g.deepString(), FamDeep
 	case k < 14:
 		p := g.Path()
 		s, fam = Render(p, Canon).Text, FamRender
